@@ -9,6 +9,9 @@ ENGINES = [
 ]
 
 PHASES = {
+    "C03": [
+        {"pkg": "e2", "test": "TestC03Retransmission", "phase": "C03/retransmission"},
+    ],
     "C02": [
         {"pkg": "e2", "test": "TestC02Delivery", "phase": "C02/acknowledged-publish-delivered"},
     ],
@@ -45,6 +48,12 @@ PHASES = {
 }
 
 META = {
+    "C03": {
+        "engine": "E2-brokermc",
+        "technique": "explicit enumeration of client response scripts (all interleavings of per-delivery automata) on the complete in-process broker under virtual time, real 1 s expiry ticker",
+        "text": "All interleavings of acknowledge / wrong-type / wrong-identifier / silence-past-deadline / disconnect events over 2 in-flight deliveries (QoS 1 and QoS 2; thorough: 3 deliveries over 2 sessions) up to 6-7 events, with the production identifier range and with a 3-identifier pool; the oracle keys on the deadline the implementation registered: every pending delivery is sent again with the same identifier after each silence, PUBREL follows PUBREC, nothing is sent after completion during a 60 s horizon, identifiers of finished deliveries are free and a further message still gets one.",
+        "note": "Run-to-quiescence between client events; the client drains its socket; DUP flag not judged.",
+    },
     "C02": {
         "engine": "E2-brokermc",
         "technique": "explicit enumeration of publish-event sequences x message-log states on the complete in-process broker under virtual time (synctest), run to quiescence after every event",
